@@ -222,12 +222,21 @@ def _cpr_loop1(v):
     yield "nothing-read-yet-means-zero", implies(v.i == i1, v.x == 0)
 
 
+def _xcheck_char_predicates():
+    from pyvc.text import xcheck_char_predicates
+
+    return ("single-character-str-predicates-agree-with-cpython", *xcheck_char_predicates())
+
+
 @contract(ES + "KeyqueueTrie.read_cursor_position", property="C05", replayable=False)
 class read_cursor_position:
     self_shape = TRIE0
     params = dict(keys=CODES, more_available=Bool)
     result = Opt(Tup(Tup(Const("cursor position"), Int, Int), CODES))
     raises = (_esc.MoreInputRequired,)
+    # a digit of a report is an ASCII digit, 48 <= k <= 57 (`is_digit`); a body that classifies bytes with str
+    # predicates (chr(k).isdigit() / .isnumeric() / ...) is verified against CPython's exact answers for 0..255
+    static_checks = [_xcheck_char_predicates]
 
     def ensures(old, s, a, result):
         p, q, wellformed, incomplete = cpr_shape(a.keys)
